@@ -667,11 +667,18 @@ def _nonzero_guarded(f, node, div):
     dt = ast.unparse(div)
     # conditional expression: X % g if ... and g else 0
     for x in own_walk(f.node):
-        if isinstance(x, ast.IfExp) and any(node is y for y in ast.walk(x.body)):
-            conj = x.test.values if isinstance(x.test, ast.BoolOp) and isinstance(x.test.op, ast.And) else [x.test]
-            if any(ast.unparse(c) == dt or (isinstance(c, ast.Compare) and ast.unparse(c.left) == dt and isinstance(c.ops[0], (ast.Gt, ast.NotEq)) and G.is_zero(c.comparators[0]))
-                   for c in conj):
-                return True
+        if isinstance(x, ast.IfExp):
+            pt, pbody, pelse = G.pos_if(x)
+            if any(node is y for y in ast.walk(pbody)):
+                conj = pt.values if isinstance(pt, ast.BoolOp) and isinstance(pt.op, ast.And) else [pt]
+                if any(ast.unparse(c) == dt or (isinstance(c, ast.Compare) and ast.unparse(c.left) == dt and isinstance(c.ops[0], (ast.Gt, ast.NotEq)) and G.is_zero(c.comparators[0]))
+                       for c in conj):
+                    return True
+            elif any(node is y for y in ast.walk(pelse)):
+                # the division sits where the (positive) test is false: `0 if not d else x % d` reads as `x % d if d else 0`
+                u = ast.unparse(pt)
+                if u in (f'{dt} == 0', f'0 == {dt}', f'{dt} <= 0', f'{dt} < 1'):
+                    return True
     line = node.lineno
 
     def zero_test(t):
